@@ -119,7 +119,7 @@ func r11_1(c *Ctx) {
 func dominatedBySelectOnDone(in ssa.Instruction) bool {
 	fn := in.Parent()
 	okk := false
-	eachInstr(fn, func(x ssa.Instruction) {
+	eachInstrDeep(fn, func(x ssa.Instruction) {
 		sel, ok := x.(*ssa.Select)
 		if !ok {
 			return
@@ -403,7 +403,7 @@ func findIterParts(P *Program) *iterParts {
 		return nil
 	}
 	ip := &iterParts{fn: it}
-	eachInstr(it, func(in ssa.Instruction) {
+	eachInstrDeep(it, func(in ssa.Instruction) {
 		if call, ok := isModCall(in, "(*parser.Parser).Next"); ok {
 			ip.next = call
 		}
@@ -440,7 +440,7 @@ func isYieldCall(in ssa.Instruction) (*ssa.Call, bool) {
 
 func callsYield(f *ssa.Function) bool {
 	r := false
-	eachInstr(f, func(in ssa.Instruction) {
+	eachInstrDeep(f, func(in ssa.Instruction) {
 		if _, ok := isYieldCall(in); ok {
 			r = true
 		}
@@ -745,7 +745,7 @@ func r11_7(c *Ctx) {
 	}
 	// marker stores: each must be under Scan()==false and Err()==nil
 	n := 0
-	eachInstr(next, func(in ssa.Instruction) {
+	eachInstrDeep(next, func(in ssa.Instruction) {
 		if !isEOFMarkerStore(in) {
 			return
 		}
